@@ -17,6 +17,20 @@ def rdM3 {α} [Codec α] (c : Ctx) : Rd (M3 α) := do
   let zx ← Rd.sc c; let zy ← Rd.sc c; let zz ← Rd.sc c
   pure ⟨xx, xy, xz, yx, yy, yz, zx, zy, zz⟩
 
+def rdTri3 {α} [Codec α] (c : Ctx) : Rd (Tri3 α) := do
+  let a ← Rd.v3 c; let b ← Rd.v3 c; let d ← Rd.v3 c; pure ⟨a, b, d⟩
+
+/-- the `points` argument after `np.atleast_2d`: width, then the rows (each a list of scalars) -/
+def rdRows {α} [Codec α] (c : Ctx) : Rd (Polygon.Rows α) := do
+  let w ← Rd.nat c
+  let rows : List (List α) ← Rd.list c (Rd.list c (Rd.sc c))
+  pure ⟨w, rows⟩
+
+def outExc (r : Except String (List Bool)) : String :=
+  match r with
+  | .ok bs => Out.bools bs
+  | .error e => s!"E:{e}"
+
 def join (l : List String) : String := " ".intercalate (l.filter (· ≠ ""))
 
 /-- driver ops of C06. `none` = unknown op. -/
@@ -80,6 +94,68 @@ def run (α : Type) [Scalar α] [Codec α] (op : String) (c : Ctx) : Option (Rd 
       let cen : P2 α ← rdP2 c
       let ps : List (P2 α) ← Rd.list c (rdP2 c)
       pure (Out.bools (ps.map (inEllipse a b cen)))
+  | "cert.region" => some do
+      -- the triangulation certificate of `polygon_inside_checked / _certified`, run exactly (Q mode)
+      -- in: verts (x y)*, triangles (ax ay bx by cx cy)*, points (x y)*
+      -- out: b<certCheck = chain by cancellation && consistent strict orientation>, then per point
+      --      b<offCheck> b<inRegion> i<count> b<model isInsideRot> i<half-turn sum> b<onPolygon>
+      let vs : List (P2 α) ← Rd.list c (rdP2 c)
+      let Ts : List (Tri2 α) ← Rd.list c (rdTri2 c)
+      let ps : List (P2 α) ← Rd.list c (rdP2 c)
+      let per := ps.map fun p =>
+        s!"{Out.bool (offCheck Ts p)} {Out.bool (inRegion Ts p)} {Out.int (count Ts p)} {Out.bool (Polygon.isInsideRot vs p)} {Out.int (Polygon.halfTurnSum vs p)} {Out.bool (onPolygon vs p)}"
+      pure (join (Out.bool (certCheck vs Ts) :: per))
+  | "convex.inside" => some do
+      -- the hypotheses and the spec of `convex_inside_certified`, run exactly (Q mode)
+      -- in: verts (x y)*, points (x y)*
+      -- out: b<convexCheck vs> b<convexCheck vs.reverse>, then per point
+      --      b<onPolygon> b<inConvex> b<model isInsideRot>
+      let vs : List (P2 α) ← Rd.list c (rdP2 c)
+      let ps : List (P2 α) ← Rd.list c (rdP2 c)
+      let per := ps.map fun p =>
+        s!"{Out.bool (onPolygon vs p)} {Out.bool (inConvex vs p)} {Out.bool (Polygon.isInsideRot vs p)}"
+      pure (join (Out.bool (convexCheck vs) :: Out.bool (convexCheck vs.reverse) :: per))
+  | "spec.evenodd" => some do
+      -- the even-odd rule (crossing number of the upward ray), triangulation-free; Q mode
+      -- in: verts (x y)*, points (x y)* ; out: per point  i<crossNumber>  i<model windingNumber>  b<onPolygon>
+      let vs : List (P2 α) ← Rd.list c (rdP2 c)
+      let ps : List (P2 α) ← Rd.list c (rdP2 c)
+      pure (join (ps.map fun p =>
+        s!"{Out.int (crossNumber vs p)} {Out.int (Polygon.windingNumber vs p)} {Out.bool (onPolygon vs p)}"))
+  | "spec.region3" => some do
+      -- intrinsic membership in space (no rotation): in: n(3), triangles (9 each)*, points (x y z)*
+      -- out: per point  b<inRegion3>  b<on the boundary of some triangle>
+      let n : V3 α ← Rd.v3 c
+      let Ts : List (Tri3 α) ← Rd.list c (rdTri3 c)
+      let ps : List (V3 α) ← Rd.list c (Rd.v3 c)
+      pure (join (ps.map fun p =>
+        s!"{Out.bool (inRegion3 n Ts p)} {Out.bool (Ts.any fun t => onBoundary3 n t p)}"))
+  | "poly.arg" => some do
+      -- `Polygon.is_inside(points)` with its argument handling
+      -- in: R(9), verts (x y z)*, width, rows ((scalar)*)* ; out: bools | E:ValueError
+      let R : M3 α ← rdM3 c
+      let vs : List (V3 α) ← Rd.list c (Rd.v3 c)
+      let a ← rdRows c
+      pure (outExc (Polygon.isInsideArg R vs a))
+  | "circle.arg" => some do
+      -- in: r, centre(3), width, rows ; out: bools | E:ValueError
+      let r : α ← Rd.sc c
+      let cen : V3 α ← Rd.v3 c
+      let a ← rdRows c
+      pure (outExc (Circle.isInsideArg r cen a))
+  | "ellipse.arg" => some do
+      -- in: a, b, centre(3), width, rows ; out: bools | E:ValueError
+      let a : α ← Rd.sc c
+      let b : α ← Rd.sc c
+      let cen : V3 α ← Rd.v3 c
+      let arg ← rdRows c
+      pure (outExc (Ellipse.isInsideArg a b cen arg))
+  | "poly.normaldir" => some do
+      -- in: v0 v1 v2 ; out: cross(v2 - v1, v0 - v1)
+      let v0 : V3 α ← Rd.v3 c
+      let v1 : V3 α ← Rd.v3 c
+      let v2 : V3 α ← Rd.v3 c
+      pure (Out.v3 (Polygon.normalDir v0 v1 v2))
   | _ => none
 
 end OpsC06
